@@ -1,6 +1,7 @@
 package main
 
 import (
+	"encoding/json"
 	"context"
 	_ "embed"
 	"fmt"
@@ -35,6 +36,87 @@ type Engine struct {
 	usable  map[*FuncContract]string // "" = usable, otherwise the reason the contract no longer fits the function
 	driftMu sync.Mutex
 	drift   map[string]string
+	recorded map[string][]string // parameter and local names per function, in declaration order, when the contracts were written (/verif/locals.json)
+	aliased  map[string]string   // functions in which a contract identifier was re-bound to a renamed parameter / local
+}
+
+// declaredNames: receiver, parameters and named locals (named results included) of fn in
+// declaration order.
+func declaredNames(fn *ssa.Function) []string {
+	var out []string
+	for _, p := range fn.Params {
+		out = append(out, p.Name())
+	}
+	for _, a := range fn.Locals {
+		if a.Comment != "" {
+			out = append(out, a.Comment)
+		}
+	}
+	return out
+}
+
+// renamedIdent: name is not an identifier of fn any more, but the function has as many
+// parameters and locals as it had when the contracts were written and the one at name's
+// declaration ordinal is now called something else.
+func (e *Engine) renamedIdent(fn *ssa.Function, name string) (string, bool) {
+	if e.recorded == nil {
+		return "", false
+	}
+	pk, key := fnKey(fn)
+	rec, ok := e.recorded[pk+"::"+key]
+	cur := declaredNames(fn)
+	if !ok || len(rec) != len(cur) {
+		return "", false
+	}
+	base, ord := name, 0
+	if i := strings.Index(name, "#"); i >= 0 {
+		fmt.Sscanf(name[i+1:], "%d", &ord)
+		base = name[:i]
+	}
+	seen := 0
+	for k := range rec {
+		if rec[k] != base {
+			continue
+		}
+		seen++
+		if ord > 0 && seen != ord {
+			continue
+		}
+		if cur[k] == base {
+			if ord > 0 {
+				return "", false
+			}
+			continue
+		}
+		alt := cur[k]
+		n, total := 0, 0
+		for j := range cur {
+			if cur[j] == alt {
+				total++
+				if j <= k {
+					n++
+				}
+			}
+		}
+		if total > 1 {
+			alt = fmt.Sprintf("%s#%d", alt, n)
+		}
+		return alt, true
+	}
+	return "", false
+}
+
+func (e *Engine) noteAlias(fn *ssa.Function, from, to string) {
+	e.driftMu.Lock()
+	defer e.driftMu.Unlock()
+	k := fnDisplayName(fn)
+	note := from + " -> " + to
+	if !strings.Contains(e.aliased[k], note) {
+		if e.aliased[k] != "" {
+			e.aliased[k] += ", "
+		}
+		e.aliased[k] += note
+	}
 }
 
 func LoadEngine(repoDir string) (*Engine, error) {
@@ -56,7 +138,12 @@ func LoadEngine(repoDir string) (*Engine, error) {
 	}
 	prog, _ := ssautil.AllPackages(pkgs, ssa.NaiveForm|ssa.GlobalDebug|ssa.InstantiateGenerics)
 	prog.Build()
-	e := &Engine{fset: prog.Fset, prog: prog, pkgs: pkgs, cs: NewContractSet(), fnIndex: map[string]*ssa.Function{}, repoDir: repoDir, allPkgs: map[string]*packages.Package{}, effFree: map[*ssa.Function]bool{}, usable: map[*FuncContract]string{}, drift: map[string]string{}}
+	e := &Engine{fset: prog.Fset, prog: prog, pkgs: pkgs, cs: NewContractSet(), fnIndex: map[string]*ssa.Function{}, repoDir: repoDir, allPkgs: map[string]*packages.Package{}, effFree: map[*ssa.Function]bool{}, usable: map[*FuncContract]string{}, drift: map[string]string{}, aliased: map[string]string{}}
+	if b, err := os.ReadFile(filepath.Join(verifDir, "locals.json")); err == nil {
+		if err := json.Unmarshal(b, &e.recorded); err != nil {
+			return nil, fmt.Errorf("locals.json: %v", err)
+		}
+	}
 	packages.Visit(pkgs, nil, func(p *packages.Package) { e.allPkgs[p.PkgPath] = p })
 	// function index
 	for fn := range ssautil.AllFunctions(prog) {
